@@ -133,6 +133,21 @@ func TestSingleTermSweep(t *testing.T) {
 					run(f, fmt.Sprintf("%s/%d", names[a-lo], s), setOf(a, hi, s))
 				}
 			}
+			// steps around the widths of machine integers, and steps that bring start+step back into the field's
+			// range in a 32- or 64-bit unsigned sum: each selects the start value only (or is refused)
+			huge := append([]string(nil), hugeSteps...)
+			for d := uint64(1); d <= uint64(a)+2; d++ {
+				huge = append(huge, fmt.Sprint(^uint64(0)-d+1), fmt.Sprint(uint64(1)<<32-d))
+			}
+			for _, hs := range huge {
+				run(f, fmt.Sprintf("%d/%s", a, hs), setOf(a, a, 1))
+				if a == lo {
+					run(f, fmt.Sprintf("*/%s", hs), setOf(a, a, 1))
+				}
+				if a+1 <= hi {
+					run(f, fmt.Sprintf("%d-%d/%s", a, hi, hs), setOf(a, a, 1))
+				}
+			}
 			for b := a; b <= hi; b++ {
 				run(f, fmt.Sprintf("%d-%d", a, b), setOf(a, b, 1))
 				if names != nil {
